@@ -26,6 +26,7 @@ CFG = """CONSTANTS
   Gens <- {gens}
   GeomNames <- {geoms}
   MaxDepth = {depth}
+  InitShape = "{shape}"
   Ghost = {ghost}
   ForgetDirty = {forget}
   KeepPaths = {keep}
@@ -40,9 +41,9 @@ MC_INVS = "\n".join("INVARIANT " + i for i in
 
 
 def cfg(nodes="Nodes4", gens="Gens2", geoms="Geoms0", depth=4, ghost=False, forget=False,
-        keep=False, view=True, invs=MC_INVS):
+        keep=False, view=True, invs=MC_INVS, shape="empty"):
     b = lambda x: "TRUE" if x else "FALSE"
-    return CFG.format(nodes=nodes, gens=gens, geoms=geoms, depth=depth, ghost=b(ghost),
+    return CFG.format(nodes=nodes, gens=gens, geoms=geoms, depth=depth, shape=shape, ghost=b(ghost),
                       forget=b(forget), keep=b(keep), view="VIEW View" if view else "", invs=invs)
 
 
@@ -91,6 +92,8 @@ def replay_one(SceneGraph, beh, variant):
     """Replay one TLC behaviour. Returns list of failures (dicts)."""
     fails = []
     g = SceneGraph(base_frame=beh.get("base0", "w"))
+    for e in beh.get("init", []):
+        g.update(frame_to=e["v"], frame_from=e["u"], matrix=mat(e["m"]))
     for i, st in enumerate(beh["h"]):
         op = st["op"]
         if op == "update":
@@ -98,6 +101,11 @@ def replay_one(SceneGraph, beh, variant):
             if st["g"] != "-":
                 kw["geometry"] = st["g"]
             g.update(frame_to=st["v"], frame_from=st["u"], **kw)
+            # the arrays handed to update() stay the caller's: scribbling on them afterwards must not
+            # change the graph ("product of the CURRENT edge matrices" means the graph's own values)
+            for val in kw.values():
+                if isinstance(val, np.ndarray):
+                    val[...] = 77.0
         elif op == "remove":
             g.transforms.remove_node(st["u"])
         elif op == "remove_geometry":
@@ -242,7 +250,11 @@ def trace_repo_tests(tier, V, cov):
     with open(os.path.join(d, "cases.ndjson"), "w") as f:
         for c in cases:
             f.write(json.dumps(c) + "\n")
-    r = tlc.must(tlc.run(d, "TraceSceneGraph", "INIT Init\nNEXT Next\nINVARIANT Tell\nINVARIANT Acyclic\nCHECK_DEADLOCK FALSE\n", workers=1, timeout=900), "trace")
+    r = tlc.run(d, "TraceSceneGraph", "INIT Init\nNEXT Next\nINVARIANT Tell\nINVARIANT Acyclic\nCHECK_DEADLOCK FALSE\n", workers=1, timeout=900)
+    if r.violated == "Acyclic":
+        V.violation("ForestInv(recorded state)", {"what": "the parent map logged by the recorder contains a cycle although the driver only asked for acyclic updates"})
+        return r.distinct, len(cases)
+    tlc.must(r, "trace")
     if len(r.printed) < len(cases):
         raise MachineryError("TLC judged %d of %d recorded gets" % (len(r.printed), len(cases)))
     token = {"I": np.eye(4)}
@@ -327,7 +339,18 @@ def main(argv):
     note(f"simulate num={nsim} depth={dsim}", r)
     behs += r.printed
     n_sim = len(r.printed)
-    if n_cover < 100 or n_leaf < 100 or n_sim < nsim:
+    # (d) from a pre-built chain world -> a -> b -> c: every history of length 3 and a deeper state cover, so
+    # that "multi-hop query, re-parent, query again" needs no set-up steps
+    r = tlc.must(tlc.run(d, "SceneGraph", cfg(depth=3, view=False, shape="chain", invs="INVARIANT EmitLeaf\nINVARIANT GetIsPathProduct"), workers=1, timeout=1500), "emit-chain")
+    note("emit all histories depth=3 from a chain", r)
+    behs += r.printed
+    n_chain = len(r.printed)
+    if tier == "thorough":
+        r = tlc.must(tlc.run(d, "SceneGraph", cfg(depth=4, shape="chain", invs="INVARIANT EmitAll\nINVARIANT GetIsPathProduct"), workers=1, timeout=1500), "emit-chain-cover")
+        note("emit state cover from a chain", r)
+        behs += r.printed
+        n_chain += len(r.printed)
+    if n_cover < 100 or n_leaf < 100 or n_sim < nsim or n_chain < 1000:
         raise MachineryError(f"emission too small: cover={n_cover} leaf={n_leaf} sim={n_sim}")
 
     # 3. replay
@@ -347,7 +370,7 @@ def main(argv):
         "states": states, "transitions": trans,
         "traces_validated_against_impl": n_beh + n_rec,
         "gets_compared": n_get,
-        "behaviours": {"state_cover": n_cover, "all_histories_depth3": n_leaf, "simulated": n_sim},
+        "behaviours": {"state_cover": n_cover, "all_histories_depth3": n_leaf, "simulated": n_sim, "from_chain": n_chain},
         "exhaustive": True,
         "replay_wall_s": round(time.time() - t0, 1),
         "samples": [behs[0]["h"] if behs[0]["h"] else behs[1]["h"], behs[n_cover + n_leaf // 2]["h"], behs[-1]["h"]],
